@@ -24,18 +24,19 @@ theorem withSvc_nsAddInterface {P : Topo → Prop} (hP : AttachStable P) (fl : F
   refine ifaceNew_inv fl c name nid svc itype props s (hP.closed _ h.1) h (fun pn n hm hi hnew hncls htyp => ?_)
   obtain ⟨hp, hh, x, hx, hxi⟩ := h
   have hpc : pn.cls = .networkService := hh pn hm hi
-  refine ⟨?_, ?_, x, by simp [ext, hx], hxi⟩
+  refine ⟨?_, ?_, x, by simp [grow, hx], hxi⟩
   · exact hP.attach hp hm hnew (by simp [nodeOk, classOk_all, hncls, ht n.typ htyp]) (by simp [edgeOk, GNode.ref, hpc, hncls])
-      (by simp [hpc]) (fun _ hsp' => hsp (by rw [htyp, hsp']))
+      (by simp [hpc]) (fun _ hsp' => hsp (by rw [htyp, hsp'])) (.inl hncls)
   · intro m hm' hmi
-    simp only [ext, List.mem_append, List.mem_singleton] at hm'
+    simp only [grow, List.mem_append, List.mem_singleton] at hm'
     rcases hm' with hm' | rfl
     · exact hh m hm' hmi
     · exact absurd (hxi.trans hmi.symm) (hnew x hx)
 
 /-- service creation under a node without interfaces to connect: no rollback can run -/
 theorem svcNew_nil_some {P : Topo → Prop} (hP : AttachStable P) (fl : Flavour) (c : Nat) (p : Nid) (a : SvcArgs) (s : Topo)
-    (ha : a.ifs = []) (hty : TypeArgOk .networkService a.nstype) (hpar : ParentOk s (some p)) (h : P s) :
+    (ha : a.ifs = []) (hty : TypeArgOk .networkService a.nstype) (hpar : ParentOk s (some p))
+    (hnm : ∀ pn, findNode p s = (.ok pn, s) → ∀ m ∈ kids s pn.ref .has .networkService, m.name ≠ a.name) (h : P s) :
     P (svcNew fl c (some p) a s).2 ∧ ∀ v, (svcNew fl c (some p) a s).1 = .ok v → WithSvc P v.1 (svcNew fl c (some p) a s).2 := by
   unfold svcNew
   rcases pick a.nid c with ⟨id, c1⟩
@@ -60,18 +61,23 @@ theorem svcNew_nil_some {P : Topo → Prop} (hP : AttachStable P) (fl : Flavour)
   rw [hsi] at hrun
   rw [bind_ok hrun, attach_state (hP.closed _ h) hfr, ha]
   have hpc := hpcls pn hpnm hpni
-  have hB : P (ext s [sn] [⟨pn.ref, sn.ref, .has⟩]) := by
-    refine hP.attach h hpnm hfr (by simp [nodeOk, classOk_all, hsc, hst, hty t htt]) ?_ ?_ (by simp [hsc])
+  have hB : P (grow s [sn] [⟨pn.ref, sn.ref, .has⟩]) := by
+    refine hP.attach h hpnm hfr (by simp [nodeOk, classOk_all, hsc, hst, hty t htt]) ?_ ?_ (by simp [hsc]) ?_
     · rcases hpc with hc | hc <;> simp [edgeOk, GNode.ref, hc, hsc]
     · rcases hpc with hc | hc <;> simp [hc]
+    · refine .inr (.inr ?_)
+      rw [hsc]
+      intro m hm
+      have hsn : sn.name = a.name := by rw [hsn]
+      rw [hsn]; exact hnm pn hpn m hm
   unfold svcLoop
   simp only [bind_apply', pure_apply']
   refine ⟨hB, fun v hv => ?_⟩
   simp only [Except.ok.injEq] at hv
   subst hv
-  refine ⟨hB, ?_, ⟨sn, by simp [ext], hsi⟩⟩
+  refine ⟨hB, ?_, ⟨sn, by simp [grow], hsi⟩⟩
   intro m hm hmi
-  simp only [ext, List.mem_append, List.mem_singleton] at hm
+  simp only [grow, List.mem_append, List.mem_singleton] at hm
   rcases hm with hm | rfl
   · exact absurd (hmi.trans hsi.symm) (hfr m hm)
   · exact hsc
@@ -81,10 +87,10 @@ theorem nodeAddService_nil {P : Topo → Prop} (hP : AttachStable P) (fl : Flavo
     P (nodeAddService fl c p a s).2 ∧ ∀ v, (nodeAddService fl c p a s).1 = .ok v → WithSvc P v.1 (nodeAddService fl c p a s).2 := by
   unfold nodeAddService
   refine ro_step (Q := fun r => P r.2 ∧ ∀ v : Nid × Cache, r.1 = .ok v → WithSvc P v.1 r.2) (readOnly_childrenOf _ _ _ _)
-    (fun _ => ⟨h, fun v hv => by cases hv⟩) (fun _ _ => ?_)
+    (fun _ => ⟨h, fun v hv => by cases hv⟩) (fun nss hch => ?_)
   refine ro_step (Q := fun r => P r.2 ∧ ∀ v : Nid × Cache, r.1 = .ok v → WithSvc P v.1 r.2) (readOnly_guard _ _)
-    (fun _ => ⟨h, fun v hv => by cases hv⟩) (fun _ _ => ?_)
-  exact svcNew_nil_some hP fl c p a s ha hty hpar h
+    (fun _ => ⟨h, fun v hv => by cases hv⟩) (fun _ hg => ?_)
+  exact svcNew_nil_some hP fl c p a s ha hty hpar (sibling_free (hP.ids _ h) hch (guard_ok hg)) h
 
 theorem withSvc_facGo {P : Topo → Prop} (hP : AttachStable P) (fl : Flavour) (nid : Option Nid) (facs : Nid) :
     ∀ (l : List (String × List PropArg)) (k cc : Nat) (s : Topo), WithSvc P facs s →
@@ -131,12 +137,13 @@ theorem composite_inv_ok {P : Topo → Prop} {node : Nid} {body : M Topo Unit} {
 
 /-- what the two composites need of a predicate: it survives appending a NetworkNode and hanging elements off containers -/
 structure CompositeStable (P : Topo → Prop) : Prop extends AttachStable P where
-  push : ∀ {s : Topo} {n : GNode}, P s → (∀ m ∈ s.nodes, m.nid ≠ n.nid) → nodeOk n = true → n.cls = .networkNode → P (pushNode n s)
+  push : ∀ {s : Topo} {n : GNode}, P s → (∀ m ∈ s.nodes, m.nid ≠ n.nid) → nodeOk n = true → n.cls = .networkNode →
+    (∀ m ∈ s.nodes, m.cls = .networkNode → m.name ≠ n.name) → P (pushNode n s)
 
 theorem compositeStable_invS : CompositeStable InvS :=
-  { attachStable_invS with push := fun h hf hv hc => invS_push h hf hv (by simp [hc]) (by simp [hc]) }
+  { attachStable_invS with push := fun h hf hv hc _ => invS_push h hf hv (by simp [hc]) (by simp [hc]) }
 theorem compositeStable_invD : CompositeStable InvD :=
-  { attachStable_invD with push := fun h hf hv _ => invD_push h hf hv }
+  { attachStable_invD with push := fun h hf hv _ _ => invD_push h hf hv }
 
 theorem parentOk_new {s : Topo} {n : GNode} (hf : ∀ m ∈ s.nodes, m.nid ≠ n.nid) (hc : n.cls = .networkNode) :
     ParentOk (pushNode n s) (some n.nid) := by
@@ -153,14 +160,14 @@ theorem compositeCall_drop {P : Topo → Prop} (hP : CompositeStable P) (hdrop :
     (hbody : ∀ n c1 s1, P s1 → ParentOk s1 (some n) → P (body n c1 s1).2) :
     P ((addNode fl c args >>= fun x => match x with
       | (n, c1) => composite n (body n c1) >>= fun _ => Pure.pure n) s).2 := by
-  rcases addNode_cases fl c args s with ⟨e, he⟩ | ⟨n, v, hf, hc, hnt, _, _, hv1, hr⟩
+  rcases addNode_cases fl c args s with ⟨e, he⟩ | ⟨n, v, hf, hc, hnt, hnn, hnames, hv1, hr⟩
   · rw [bind_err he]; exact h
   · rw [bind_ok hr]
     obtain ⟨facn, c1⟩ := v
     simp only [] at hv1 ⊢
     subst hv1
     rw [state_after_bind _ _ (fun _ _ => rfl)]
-    have h1 : P (pushNode n s) := hP.push h hf (by simp [nodeOk, classOk_all, hc, hty n.typ hnt]) hc
+    have h1 : P (pushNode n s) := hP.push h hf (by simp [nodeOk, classOk_all, hc, hty n.typ hnt]) hc (by rw [hnn]; exact hnames)
     exact composite_inv_drop hdrop (hbody _ _ _ h1 (parentOk_new hf hc))
 
 /-- ... and when the call returns, for any predicate -/
@@ -170,7 +177,7 @@ theorem compositeCall_ok {P : Topo → Prop} (hP : CompositeStable P) (fl : Flav
     (hok : (addNode fl c args >>= fun x => match x with
       | (n, c1) => composite n (body n c1) >>= fun _ => Pure.pure n) s = (.ok r, s')) : P s' := by
   obtain ⟨v, s1, hadd, hok⟩ := bind_ok_inv hok
-  rcases addNode_cases fl c args s with ⟨e, he⟩ | ⟨n, v', hf, hc, hnt, _, _, hv1, hr⟩
+  rcases addNode_cases fl c args s with ⟨e, he⟩ | ⟨n, v', hf, hc, hnt, hnn, hnames, hv1, hr⟩
   · rw [he] at hadd; simp at hadd
   · rw [hr] at hadd
     simp only [Prod.mk.injEq, Except.ok.injEq] at hadd
@@ -181,7 +188,7 @@ theorem compositeCall_ok {P : Topo → Prop} (hP : CompositeStable P) (fl : Flav
     obtain ⟨u, s2, hcomp, hpure⟩ := bind_ok_inv hok
     simp only [pure_apply', Prod.mk.injEq] at hpure
     rw [← hpure.2]
-    have h1 : P (pushNode n s) := hP.push h hf (by simp [nodeOk, classOk_all, hc, hty n.typ hnt]) hc
+    have h1 : P (pushNode n s) := hP.push h hf (by simp [nodeOk, classOk_all, hc, hty n.typ hnt]) hc (by rw [hnn]; exact hnames)
     exact composite_inv_ok (hbody _ _ _ h1 (parentOk_new hf hc)) hcomp
 
 /-- the body of `add_facility` under its rollback -/
